@@ -144,9 +144,19 @@ func ruleActiveCaseAgree(w *core.World, r *core.Report) {
 }
 
 func ruleNoPrefixOnJoin(w *core.World, r *core.Report) {
-	r.Rule("NO-PREFIX-ON-JOIN", 1, "(shared with C11) a prefix test against a joined instance path must test whole elements: the prefix operand ends with the separator. A bare HasPrefix(key, join(path)) also matches siblings whose name merely starts with a case member's name.")
+	r.Rule("NO-PREFIX-ON-JOIN", 1, "(shared by C08, C11, C14) a prefix test against a joined instance path must test whole elements: the prefix operand ends with the separator ('<joined path> + sep'). A bare HasPrefix(key, join(path)) also matches siblings whose name merely starts with the last element (eth1 vs eth10, case member 'log' vs leaf 'log-level'). Joined paths are followed by value flow through variables, slices and maps in all repository packages.")
+	fl := w.NewFlow()
 	for _, f := range w.RepoFns {
-		if f.Pkg == nil || !strings.HasPrefix(f.Pkg.Pkg.Path(), core.Module+"/pkg/tree") {
+		for _, c := range core.CallsTo(f, "strings.Join") {
+			if v := c.Value(); v != nil {
+				fl.AddSource(v)
+			}
+		}
+	}
+	fl.Run()
+	n := 0
+	for _, f := range w.RepoFns {
+		if f.Pkg == nil || !strings.HasPrefix(f.Pkg.Pkg.Path(), core.Module+"/pkg/") || strings.Contains(f.Pkg.Pkg.Path(), "/mocks/") {
 			continue
 		}
 		for _, c := range core.CallsTo(f, "strings.HasPrefix") {
@@ -154,7 +164,7 @@ func ruleNoPrefixOnJoin(w *core.World, r *core.Report) {
 			if len(args) != 2 {
 				continue
 			}
-			fromJoin, endsWithSep := false, false
+			fromJoin, endsWithSep := fl.Reaches(args[1]), false
 			var visit func(v ssa.Value, d int)
 			visit = func(v ssa.Value, d int) {
 				if d > 4 {
@@ -167,7 +177,7 @@ func ruleNoPrefixOnJoin(w *core.World, r *core.Report) {
 							fromJoin = true
 						}
 					case *ssa.BinOp:
-						if s, isC := core.ConstString(x.Y); isC && s == nulSep {
+						if s, isC := core.ConstString(x.Y); isC && s != "" {
 							endsWithSep = true
 						}
 						visit(x.X, d+1)
@@ -176,10 +186,12 @@ func ruleNoPrefixOnJoin(w *core.World, r *core.Report) {
 			}
 			visit(args[1], 0)
 			if fromJoin {
+				n++
 				r.Check(endsWithSep, "NO-PREFIX-ON-JOIN", core.Site(f, "HasPrefix on joined path"), w.InstrPos(c), "prefix operand must end with the separator")
 			}
 		}
 	}
+	r.Extra["prefix_on_join_sites"] = n
 }
 
 func c08(w *core.World, r *core.Report) {
@@ -195,11 +207,20 @@ func c08(w *core.World, r *core.Report) {
 	// ---- ALL-ACTORS-EXCLUDED
 	r.Rule("ALL-ACTORS-EXCLUDED", 4, "when the resolvers are seeded from the intended-store index, the stored content of EVERY intent of the transaction is excluded: the filters handed to GetBranchesHighesPrecedence are built in a loop over TreeContext.GetActualOwners() with CacheUpdateFilterExcludeOwner, SetActualOwner records every owner it is given, and lowlevelTransactionSet calls it for every intent before FinishInsertionPhase.")
 	{
-		calls := core.CallsTo(pop, "tree.TreeCacheClient.GetBranchesHighesPrecedence")
-		if len(calls) != 1 {
-			r.Viol("ALL-ACTORS-EXCLUDED", core.Site(pop, "GetBranchesHighesPrecedence"), w.Pos(pop.Pos()), fmt.Sprintf("expected one index lookup, found %d", len(calls)))
-		} else {
-			c := calls[0]
+		// the lookups whose result becomes a case's value (SetValue) must exclude the acting owners; a lookup that is
+		// only compared with the tree's value (was this precedence stored before the transaction?) may see everything
+		var calls []ssa.CallInstruction
+		for _, c := range core.CallsTo(pop, "tree.TreeCacheClient.GetBranchesHighesPrecedence") {
+			for _, sv := range core.CallsTo(pop, "tree.choiceCasesResolver.SetValue") {
+				if a := core.CallArgs(sv); len(a) == 3 && core.HasOrigin(a[1], c.Value()) {
+					calls = append(calls, c)
+				}
+			}
+		}
+		if len(calls) == 0 {
+			r.Viol("ALL-ACTORS-EXCLUDED", core.Site(pop, "GetBranchesHighesPrecedence"), w.Pos(pop.Pos()), "no index lookup feeds the case values")
+		}
+		for _, c := range calls {
 			args := core.CallArgs(c)
 			ok := false
 			if len(args) == 3 {
@@ -324,6 +345,10 @@ func c08(w *core.World, r *core.Report) {
 			r.Check(eq, "BRANCH-WHOLE", core.Site(f, "the path itself is part of the branch"), w.InstrPos(rng), "index key == joined path must be accepted")
 		}
 	}
+
+	// ---- CASE-ALTERNATIVES-LOADED (shared with C01)
+	r.Rule("CASE-ALTERNATIVES-LOADED", 1, "value flow: some read of stored intent content (TreeCacheClient.Read / ReadCurrentUpdatesHighestPriorities / cache.Client.Read) takes its paths from the member names of a choice (GetElementNames / GetChoiceElementNeighbors / elementToCaseMapping). Without it the content of a case that only other intents contribute to is never in the tree, so it cannot be sent when that case becomes the winning one.")
+	ruleCaseAlternativesLoaded(w, r, "CASE-ALTERNATIVES-LOADED")
 
 	// ---- LOSER-DELETED
 	r.Rule("LOSER-DELETED", 2, "when the best case of a choice changes, the old case's node is itself put on the delete list: in getRegularDeletes the entry found for the old best case (childs.GetEntry) is appended to deletes as an element, and otherwise a synthetic delete entry is appended; the decision depends on nothing but 'old and new best case differ'. Asking the losing case for its own deletes is not enough: its owner's intent is still live, so it does not consider itself deletable.")
